@@ -9,7 +9,7 @@
 //   - every chain up to a length over a handler alphabet {allowall, denyall, allow(R), deny(R),
 //     query_ignore(Q)} with R from a stated core of rule sets,
 //   - ignore_parse_error on / off, MySQL and PostgreSQL dialect,
-//   - every pool statement in 7 formatting variants plus 10 unparsable strings.
+//   - every pool statement in 9 formatting variants plus 10 unparsable strings.
 //
 // The statements are terms of the check's own representation (term.go); SQL text, rules and the
 // reference matcher (rules.go) are derived from the terms, never from Acra's AST.
